@@ -160,6 +160,9 @@ def multiset(items):
 # running a job in a killable subprocess
 # --------------------------------------------------------------------------
 
+LAST_LOKI_FILE = None
+
+
 class JobTimeout(Exception):
     pass
 
@@ -209,6 +212,8 @@ def run_job(job, workdir, timeout):
     if p.returncode != 0 or not results or not results[-1].get('job_done'):
         tail = (workdir / 'stderr.txt').read_text(errors='replace')[-1500:]
         raise JobCrashed(f'job exit {p.returncode}, {len(results)} records; stderr tail: {tail}')
+    global LAST_LOKI_FILE  # pylint: disable=global-statement
+    LAST_LOKI_FILE = results[-1].get('loki_file')
     return [r for r in results if not r.get('job_done')]
 
 
@@ -388,7 +393,8 @@ def main(argv):
         _build_main(job, emit)
     else:
         raise ValueError(job['kind'])
-    emit({'job_done': True})
+    import loki
+    emit({'job_done': True, 'loki_file': loki.__file__})
     sys.stdout.flush()
     sys.stderr.flush()
     # leave without running interpreter-shutdown finalisers of pools/managers that may hang
